@@ -77,6 +77,7 @@ pub fn convert<'gc, 'r>(env: &mut Env<'gc, 'r>, ex: &mut Exec, target: Sel, chai
                     Ref::P(g) => Ref::P(Gc::from_ptr(Gc::as_ptr(g))),
                     Ref::DB(g) => Ref::DB(Gc::from_ptr(Gc::as_ptr(g))),
                     Ref::NT(g) => Ref::NT(Gc::from_ptr(Gc::as_ptr(g))),
+                    Ref::HSl(g) => Ref::HSl(Gc::from_ptr_with_kind(Gc::as_ptr(g))),
                     Ref::Set(..) => r,
                 }
             };
